@@ -82,6 +82,7 @@ type Opts struct {
 	OnTrace     func(in *Inst, e *Ev) // called by the consumer of subscriber 0 for each trace
 	NoSubscribe bool
 	IdGen       id.IGenerator
+	RawOptions  []bpmn.Option // passed to NewProcess as they are (e.g. one option value shared by two instances)
 }
 
 // Inst is one driven process instance.
@@ -267,6 +268,7 @@ func New(label string, defs *schema.Definitions, o Opts) (*Inst, error) {
 	if o.IdGen != nil {
 		opts = append(opts, bpmn.WithIdGenerator(o.IdGen))
 	}
+	opts = append(opts, o.RawOptions...)
 	if o.Mock != nil {
 		fan := event.NewFanOut()
 		tr := tracing.NewTracer(in.Ctx)
